@@ -168,8 +168,9 @@ def finish(prop_id, level, results, ctx, t0, technique, trusted_base,
         "wall_s": round(time.time() - t0, 3),
         "violations": len(unlisted),
     }
-    os.makedirs(os.path.join(VERIF, "evidence"), exist_ok=True)
-    with open(os.path.join(VERIF, "evidence", "%s.json" % prop_id), "w") as fh:
+    evdir = os.environ.get("VERIF_EVIDENCE_DIR") or os.path.join(VERIF, "evidence")
+    os.makedirs(evdir, exist_ok=True)
+    with open(os.path.join(evdir, "%s.json" % prop_id), "w") as fh:
         json.dump(ev, fh, indent=1, sort_keys=False)
         fh.write("\n")
     for r in results:
@@ -181,9 +182,10 @@ def finish(prop_id, level, results, ctx, t0, technique, trusted_base,
         print("KNOWN-FINDING: property=%s %s :: %s" % (prop_id, v.key, kn[v.key]))
     code = 0
     if unlisted:
-        os.makedirs(os.path.join(VERIF, "replay"), exist_ok=True)
+        rpdir = os.environ.get("VERIF_REPLAY_DIR") or os.path.join(VERIF, "replay")
+        os.makedirs(rpdir, exist_ok=True)
         for i, v in enumerate(unlisted):
-            rp = os.path.join(VERIF, "replay", "%s-%d.json" % (prop_id, i))
+            rp = os.path.join(rpdir, "%s-%d.json" % (prop_id, i))
             with open(rp, "w") as fh:
                 json.dump({"property": prop_id, **v.to_json()}, fh, indent=1)
             if i < 25:
